@@ -148,17 +148,19 @@ def cmd_sensitivity(argv):
     ap.add_argument("--runs", type=int, default=0)
     a = ap.parse_args(argv)
     seeded = os.path.join(runner.VERIF_DIR, "seeded")
+    extra = os.path.join(runner.VERIF_DIR, "seeded_extra")
     scratch = "/var/tmp/acryo-verif-sens"
     rows = []
-    ids = sorted(d for d in os.listdir(seeded) if os.path.isdir(os.path.join(seeded, d)))
+    ids = sorted(d for d in os.listdir(seeded) if os.path.isdir(os.path.join(seeded, d))) + sorted(d for d in os.listdir(extra) if os.path.isdir(os.path.join(extra, d)))
     if a.only:
         ids = [i for i in ids if i in a.only.split(",")]
     subprocess.run(["git", "-C", "/repo", "worktree", "remove", "--force", scratch], capture_output=True)
     subprocess.run(["git", "-C", "/repo", "worktree", "add", "-q", "--detach", scratch, "HEAD"], check=True)
     try:
         for mid in ids:
-            meta = json.load(open(os.path.join(seeded, mid, "meta.json")))
-            patch = os.path.join(seeded, mid, "patch.diff")
+            base = seeded if os.path.isdir(os.path.join(seeded, mid)) else extra
+            meta = json.load(open(os.path.join(base, mid, "meta.json")))
+            patch = os.path.join(base, mid, "patch.diff")
             subprocess.run(["git", "-C", scratch, "checkout", "-q", "--", "."], check=True)
             ap_ = subprocess.run(["git", "-C", scratch, "apply", "--recount", patch], capture_output=True, text=True)
             if ap_.returncode != 0:
